@@ -34,13 +34,18 @@ MANIFEST = dict(
 )
 
 INVS = ["TypeOK", "TerminatedNoBootstrap", "AfterTermIgnored", "PermutationInvariant", "PerSample", "GradSupport"]
+UPD_INVS = INVS + ["UpdEachWeightItsOwnTerm", "UpdScalesInRole"]
 ALL_KINDS = ["dqn", "nature", "ddqn", "per", "ddpg", "td3", "lap", "sac", "td7", "mrq", "sale", "enc"]
+# update routines: the USE of a loss (differentiate, apply with the caller's optimiser, return); spec operator Base(k)
+UPD_BASE = {"encupd": "enc", "saleupd": "sale", "mrqupd": "mrq"}
+UPD_KINDS = sorted(UPD_BASE)
 DISC = ("dqn", "nature", "ddqn", "per")
 CONT = ("ddpg", "td3", "lap", "sac")
 FNAME = {
     "dqn": "dqn_loss", "nature": "nature_dqn_loss", "ddqn": "ddqn_loss", "per": "ddqn_per_loss", "ddpg": "ddpg_loss",
     "td3": "td3_loss", "lap": "td3_lap_loss", "sac": "sac_loss", "td7": "td7_update_critic", "mrq": "mrq_loss",
     "sale": "state_action_embedding_loss", "enc": "model_based_encoder_loss",
+    "encupd": "update_model_based_encoder", "saleupd": "update_sale", "mrqupd": "update_critic_and_policy",
 }
 BINS = np.array([-2.0, 0.0, 2.0, 4.0], dtype=np.float32)  # mean 1 = RBar of the spec; uniform softmax = 1/4 exactly
 FILL = np.array([-2.0, -1.0, -0.5, 0.5, 1.0, 2.0, 3.0], dtype=np.float32)
@@ -125,7 +130,7 @@ def grad_tol(kind, n, g, e=None, delta=None):
 
 def value_tols(case, alt):
     """Counted bounds for the scalar outputs of the critic / SALE losses at non-dyadic batch sizes."""
-    n, k = case.n, case.kind
+    n, k = case.n, case.bkind
     if dyadic_n(n):
         return {"loss": 0.0, "qmean": 0.0, "mtd": 0.0}
     if k == "sale":  # one mean over n*2 exactly representable non-negative terms
@@ -170,6 +175,11 @@ class Case:
     fill_seed: tuple = ()
     irrelevant_rows: list = field(default_factory=list)
 
+    @property
+    def bkind(self):
+        """kind of the loss the case is about (update routines: the loss they wrap)"""
+        return UPD_BASE.get(self.kind, self.kind)
+
 
 def terminated_rows(vec):
     """Rows (0-based) whose bootstrap part is irrelevant according to the specification (emitted set Irrelevant)."""
@@ -183,6 +193,8 @@ def masked_steps(vec):
 
 # ----------------------------------------------------------------- realisation: TLC's network outputs -> stub parameters
 def realise(vec, rng) -> Case:
+    if vec["kind"] in UPD_BASE:
+        return realise_update(vec, rng)
     k = vec["kind"]
     n = vec["n"]
     rows = vec["rows"]
@@ -483,6 +495,10 @@ def realise(vec, rng) -> Case:
         c.aux.update(h=h, normtgt=normtgt, gd_bc=gMb[:, 0], gd_bc_tol=tMb)
     else:  # pragma: no cover
         raise tlc.MachineryError(f"unknown kind {k}")
+    return _check_groups(c, vec, k)
+
+
+def _check_groups(c, vec, k):
     missing = [gname for gname in list(vec["zero"]) + list(vec["support"]) if gname not in c.groups]
     if missing:
         raise tlc.MachineryError(f"binding does not map the spec's parameter groups {missing} for {k}")
@@ -580,7 +596,7 @@ def _lazy():
 
 def build_modules(case: Case):
     """Template stub modules for a group (shapes only matter)."""
-    k = case.kind
+    k = case.bkind
     lv = case.leaves
     LT = stubs.LinearTable
     if k == "dqn":
@@ -609,7 +625,11 @@ def build_modules(case: Case):
         return [stubs.make_sale(lv[0]["_state_embedding.kernel"], lv[0]["state_action_embedding.kernel"])]
     if k == "enc":
         e = lambda l: stubs.make_model_based_encoder(l["zs.kernel"], l["za.kernel"], l["zsa.kernel"], l["model.kernel"], 2)
-        return [e(lv[0]), e(lv[1])]
+        ms = [e(lv[0]), e(lv[1])]
+        if case.aux.get("table"):  # state-action layer on the action code only (update routine over several mini-batches)
+            for m, l in zip(ms, lv):
+                m.zsa = _tail_table()(l["zsa.kernel"], 2)
+        return ms
     raise AssertionError(k)
 
 
@@ -782,6 +802,222 @@ def run_td7_group(cases):
     return res
 
 
+# ----------------------------------------------------------------- update routines (the USE of a loss)
+K_RLOGIT = 8  # reward-logit cell of the step: exp of the shifted logit (<= 2 ulp = 4 U), division by the sum, product with the
+#               sum of the two-hot cotangents, subtraction, (float32 rounding of the expected value); terms: lr*c*(1/#bins), lr*c*th_k
+
+
+def qscale(x, f: Fraction):
+    v = fq(x) * f
+    return [v.numerator, v.denominator]
+
+
+def realise_update(vec, rng) -> Case:
+    """Update routines: the realisation of the loss they wrap; the expectation for the parameters is TLC's SGD step
+    (old - new parameter = SgdStep(lr, gradient) of the spec) instead of the gradient."""
+    k = vec["kind"]
+    base = UPD_BASE[k]
+    par = vec["par"]
+    lr = fq(par["lr"])
+    if k == "encupd" and int(par["td"]) > 1:
+        c = realise_enc_table(vec, rng)
+    else:
+        alts = []
+        for a in vec["alts"]:
+            a = dict(a)
+            if k == "mrqupd":
+                a["g1"], a["g2"] = a["s1"], a["s2"]
+            elif k == "saleupd":
+                a["g"] = a["s"]
+            else:  # one mini-batch, unrolled chain intact: done cell of every step, latent cells of the last step (no downstream use)
+                a["gd"] = a["sd"]
+                a["gz"] = [seq(z)[-1] for z in seq(a["sz"])]
+                a["gd_bc"] = [[qscale(x, lr) for x in seq(r)] for r in seq(a["gd_bc"])]
+            alts.append(a)
+        c = realise(dict(vec, kind=base, alts=alts), rng)
+        c.vec = vec
+        c.kind = k
+        c.aux = dict(c.aux, table=False)
+    if k == "encupd" and [fq(b) for b in vec["alts"][0]["bins"]] != [Fraction(float(b)) for b in BINS]:
+        raise tlc.MachineryError("binding: bin edges of the driver differ from BinsQ of the specification")
+    if k == "mrqupd":  # policy of update_critic_and_policy (its loss is not part of C03; it must not disturb the critic's outputs)
+        c.aux = dict(c.aux, policy=fill(rng, (2, 2 * c.n)))
+    return c
+
+
+def realise_enc_table(vec, rng) -> Case:
+    """update_model_based_encoder over several mini-batches.  The model head is a table lookup on the one-hot action of the
+    row-step (the state-action layer ignores the latent state: TailTable), so mini-batches on disjoint rows do not interact and
+    the WHOLE step of the model table is decided by TLC: done / latent / reward-logit cells of every row-step."""
+    n = vec["n"]
+    par = vec["par"]
+    rows = vec["rows"]
+    alt0 = vec["alts"][0]
+    R = len(rows)
+    h = len(seq(rows[0]["x"]["ts"]))
+    nb = len(BINS)
+    S = R + R * h
+    A = R * h
+    normtgt = bool(par["normtgt"])
+    lr, rwt = fl(par["lr"]), fl(par["rw"])
+    c = Case(vec=vec, kind="encupd", n=n, leaves=[], arrays={})
+    E = fill(rng, (S, 2))
+    Et = fill(rng, (S, 2))
+    M = np.zeros((A, 3 + nb), dtype=np.float32)
+    sM = np.zeros((A, 3 + nb), dtype=np.float32)
+    tM = np.zeros((A, 3 + nb), dtype=np.float64)
+    sMb = np.zeros(A, dtype=np.float32)
+    obs3 = np.zeros((R, h, S), dtype=np.float32)
+    nobs3 = np.zeros((R, h, S), dtype=np.float32)
+    act3 = np.zeros((R, h, A), dtype=np.float32)
+    masked = set(masked_steps(vec))
+    for i, rw in enumerate(rows):
+        pz = [np.array(vecf(v), dtype=np.float32) for v in seq(rw["x"]["pz"])]
+        pd = vecf(rw["x"]["pd"])
+        tz = [np.array(vecf(v), dtype=np.float32) for v in seq(rw["b"]["tz"])]
+        cells = []
+        for t in range(h):
+            j = i * h + t
+            sn = R + j
+            M[j, 0] = pd[t]
+            M[j, 1:3] = pz[t]
+            Et[sn] = tz[t] / 2.0 if normtgt else tz[t]
+            obs3[i, t, i if t == 0 else R + j - 1] = 1.0
+            nobs3[i, t, sn] = 1.0
+            act3[i, t, j] = 1.0
+            sM[j, 0] = fl(seq(seq(alt0["sd"])[i])[t])
+            sM[j, 1:3] = vecf(seq(seq(alt0["sz"])[i])[t])
+            sM[j, 3:] = vecf(seq(seq(alt0["sr"])[i])[t])
+            sMb[j] = lr * fl(seq(seq(alt0["gd_bc"])[i])[t])
+            if (i, t) not in masked:  # masked steps: cotangent 0, the cells stay exactly as they are
+                tM[j, 3:] = K_RLOGIT * U * (np.abs(sM[j, 3:]) + 2.0 * lr * rwt / (n * nb))
+            cells.append([((0, "model.kernel"), (j, slice(0, 3))), ((1, "zs.kernel"), (sn,)), (("arr", "r"), (i, t))])
+        c.boot.append(cells)
+    eye = np.eye(A, dtype=np.float32)
+    enc = {"zs.kernel": E, "za.kernel": eye.copy(), "zsa.kernel": eye.copy(), "model.kernel": M}
+    enct = {"zs.kernel": Et, "za.kernel": fill(rng, (A, A)), "zsa.kernel": fill(rng, (A, A)), "model.kernel": fill(rng, (A, 3 + nb))}
+    c.leaves = [enc, enct]
+    c.arrays = dict(
+        obs=obs3, act=act3, r=np.array([vecf(rw["x"]["r"]) for rw in rows], dtype=np.float32), nobs=nobs3,
+        term=np.array([seq(rw["x"]["ts"]) for rw in rows], dtype=np.int32), trunc=np.zeros((R, h), dtype=np.int32),
+        dw=np.float32(fl(par["dw"])), rw=np.float32(fl(par["rw"])), tw=np.float32(fl(par["tw"])), envterm=np.bool_(par["envterm"]),
+    )
+    # the latent state of the first observation is computed but reaches nothing: the state encoder does not move either
+    c.exp_grad = {(0, "model.kernel"): sM, (0, "zs.kernel"): np.zeros_like(E), ("arr", "nobs"): np.zeros_like(nobs3),
+                  (0, "za.kernel"): np.full((A, A), NAN, dtype=np.float32), (0, "zsa.kernel"): np.full((A, A), NAN, dtype=np.float32)}
+    for kk, v in enct.items():
+        c.exp_grad[(1, kk)] = np.zeros_like(v)
+    c.groups = {"encoder@obs": [((0, "zs.kernel"), 0, R)], "encoder@next": [((0, "zs.kernel"), R, S)], "encoder_model": [(0, "model.kernel")],
+                "encoder_target": [(1, kk) for kk in enct], "next_obs": [("arr", "nobs")]}
+    c.tol_grad = {(0, "model.kernel"): tM}
+    c.aux.update(h=h, normtgt=normtgt, gd_bc=sMb, gd_bc_tol=np.zeros(A), table=True)
+    return _check_groups(c, vec, "enc")
+
+
+def _tail_table():
+    _, _, nnx = _lazy()
+    global _TailTable
+    if "_TailTable" not in globals():
+        class _TailTable(nnx.Module):  # noqa: N801
+            """x -> x[..., skip:] @ T : a state-action layer that looks at the action code only."""
+
+            def __init__(self, table, skip):
+                import jax.numpy as jnp
+
+                self.kernel = nnx.Param(jnp.asarray(np.asarray(table, dtype=np.float32)))
+                self.skip = int(skip)
+
+            def __call__(self, x):
+                return x[..., self.skip:] @ self.kernel.value
+
+        globals()["_TailTable"] = _TailTable
+    return globals()["_TailTable"]
+
+
+_UPD_CACHE = {}  # group key -> (modules, optimiser, call): one jit specialisation per group, re-used by the binding canary
+
+
+def run_upd_group(cases):
+    """Update routines mutate their module through the caller's optimiser: evaluated case by case with SGD(lr) on fresh
+    parameters; returns (outputs, old - new parameters) per case, or raises the exception of the code under test."""
+    jax, jnp, nnx = _lazy()
+    from collections import namedtuple
+
+    import optax
+
+    c0 = cases[0]
+    k = c0.kind
+    par = c0.vec["par"]
+    gk = group_key(c0)
+    if gk not in _UPD_CACHE:
+        mods = build_modules(c0)
+        lr = fl(par["lr"])
+        if k == "encupd":
+            from rl_blox.blox.embedding.model_based_encoder import update_model_based_encoder
+
+            Batch = namedtuple("Batch", ["observation", "action", "reward", "next_observation", "terminated", "truncated"])
+            opt = nnx.Optimizer(mods[0], optax.sgd(lr), wrt=nnx.Param)
+            h, normtgt, td, n = c0.aux["h"], c0.aux["normtgt"], int(par["td"]), c0.n
+            dw, rw, tw, envterm = fl(par["dw"]), fl(par["rw"]), fl(par["tw"]), bool(par["envterm"])
+
+            def call(a):
+                batch = Batch(*(jnp.asarray(a[nm]) for nm in ("obs", "act", "r", "nobs", "term", "trunc")))
+                out = np.asarray(update_model_based_encoder(mods[0], mods[1], opt, jnp.asarray(BINS), h, dw, rw, tw, td, n, normtgt, batch, envterm))
+                if out.shape != (5,):
+                    raise ValueError(f"update_model_based_encoder returned shape {out.shape}, documented: 5 mean losses")
+                return {"loss": out[0], "dyn": out[1], "rew": out[2], "done": out[3], "rmse": out[4]}
+        elif k == "saleupd":
+            from rl_blox.blox.embedding.sale import update_sale
+
+            opt = nnx.Optimizer(mods[0], optax.sgd(lr), wrt=nnx.Param)
+
+            def call(a):
+                return {"loss": np.asarray(update_sale(mods[0], opt, jnp.asarray(a["obs"]), jnp.asarray(a["act"]), jnp.asarray(a["nobs"])))}
+        elif k == "mrqupd":
+            import gymnasium as gym
+
+            from rl_blox.algorithm.mrq import update_critic_and_policy
+            from rl_blox.blox.function_approximator.policy_head import DeterministicTanhPolicy
+
+            A = c0.arrays["act"].shape[-1]
+            policy = DeterministicTanhPolicy(stubs.LinearTable(c0.aux["policy"]), gym.spaces.Box(-1.0, 1.0, (A,), dtype=np.float32))
+            mods.append(policy)
+            opt = nnx.Optimizer(mods[0], optax.sgd(lr), wrt=nnx.Param)
+            popt = nnx.Optimizer(policy, optax.sgd(0.5), wrt=nnx.Param)
+            gamma = fl(par["gamma"])
+
+            def call(a):
+                batch = tuple(jnp.asarray(a[nm]) for nm in ("obs", "act", "r", "nobs", "term", "trunc"))
+                ql, _pl, _pc, qm, ptd = update_critic_and_policy(
+                    mods[0], mods[1], opt, policy, popt, mods[2], mods[3], gamma, 0.25, jnp.asarray(a["nact"]), batch, float(a["rs"]), float(a["trs"])
+                )
+                return {"loss": np.asarray(ql), "qmean": np.asarray(qm), "ptd": np.asarray(ptd)}
+        else:  # pragma: no cover
+            raise AssertionError(k)
+        _UPD_CACHE[gk] = (mods, call)
+    mods, call = _UPD_CACHE[gk]
+    res = []
+    for c in cases:
+        for mi, lv in enumerate(c.leaves):
+            for kk, v in lv.items():
+                _set_leaf(mods[mi], kk, v)
+        if k == "mrqupd":
+            _set_leaf(mods[4], "policy_net.kernel", c.aux["policy"])
+        o = call(c.arrays)
+        g = {}
+        for mi, lv in enumerate(c.leaves):
+            for kk, v in lv.items():
+                g[(mi, kk)] = np.asarray(v, dtype=np.float32) - _get_leaf(mods[mi], kk)  # old - new = SGD step where trained, 0 elsewhere
+        res.append((o, g))
+    return res
+
+
+def run_cases(kind, cases):
+    if kind in UPD_BASE:
+        return run_upd_group(cases)
+    return run_td7_group(cases) if kind == "td7" else run_group(cases)
+
+
 # ----------------------------------------------------------------- comparison with TLC's numbers
 def _arr_exact(v, xs):
     v = np.asarray(v).reshape(-1)
@@ -791,7 +1027,7 @@ def _arr_exact(v, xs):
 
 def compare_alt(case: Case, out, grads, alt):
     """Returns None if every output equals this admissible alternative, else (field, text)."""
-    k = case.kind
+    k = case.bkind
     if k == "enc":
         return None  # handled separately
     tol = value_tols(case, alt)
@@ -855,7 +1091,8 @@ def check_lattice(case: Case, out, grads, rep, stats):
     vec = case.vec
     rinfo = {"vec": vec, "fill_seed": list(case.fill_seed), "variant": case.variant}
     suffix = ""  # one key per output whatever the batch size (the text names it)
-    if case.kind == "enc":
+    upd = case.kind in UPD_BASE
+    if case.bkind == "enc":
         return check_enc(case, out, grads, rep, stats, rinfo)
     fails = []
     for alt in vec["alts"]:
@@ -865,7 +1102,8 @@ def check_lattice(case: Case, out, grads, rep, stats):
         fails.append(f)
     else:
         f = fails[0]
-        rep.violation(f"{fname}:{f[0]}{suffix}", f"{fname} (batch size {case.n}, {len(vec['alts'])} admissible result(s)): {f[1]}; par={_short(vec['par'], case.kind)} rows={json.dumps(vec['rows'])[:600]}", rinfo)
+        what = "returned by the update routine (documented: the loss it differentiates and applies) " if upd else ""
+        rep.violation(f"{fname}:{f[0]}{suffix}", f"{fname} (batch size {case.n}, {len(vec['alts'])} admissible result(s)): {what}{f[1]}; par={_short(vec['par'], case.kind)} rows={json.dumps(vec['rows'])[:600]}", rinfo)
         return False
     if len(vec["alts"]) > 1:
         stats["ties"] += 1
@@ -876,7 +1114,9 @@ def check_lattice(case: Case, out, grads, rep, stats):
     else:
         for ref, idx, text in compare_grads(case, grads):
             ok = False
-            rep.violation(f"{fname}:grad:{group_of(case, ref, idx)}{suffix}", f"{fname} (batch size {case.n}): {text}; par={_short(vec['par'], case.kind)} rows={json.dumps(vec['rows'])[:600]}", rinfo)
+            if upd:
+                text = f"SGD(lr={fq(vec['par']['lr'])}) step (old - new parameter) instead of lr * gradient of the documented loss: " + text.replace("d loss/d ", "step of ")
+            rep.violation(f"{fname}:{'step' if upd else 'grad'}:{group_of(case, ref, idx)}{suffix}", f"{fname} (batch size {case.n}): {text}; par={_short(vec['par'], case.kind)} rows={json.dumps(vec['rows'])[:600]}", rinfo)
     return ok
 
 
@@ -915,7 +1155,11 @@ def check_td7_update(case: Case, grads, rep, rinfo):
 
 
 def check_enc(case: Case, out, grads, rep, stats, rinfo):
-    fname = "model_based_encoder_loss"
+    """model_based_encoder_loss, and update_model_based_encoder (same outputs as means over the scan's mini-batches; `grads` is
+    then old - new parameters after the routine's SGD steps and the expectation TLC's SgdStep)."""
+    fname = FNAME[case.kind]
+    upd = case.kind in UPD_BASE
+    gword = "step" if upd else "grad"
     alt = case.vec["alts"][0]
     par = case.vec["par"]
     n = case.n
@@ -926,6 +1170,9 @@ def check_enc(case: Case, out, grads, rep, stats, rinfo):
     tol_c = lambda x: kc * U * abs(fl(x))
     ok = True
     ctx = f"(batch size {n}, horizon {case.aux['h']}, weights dyn/rew/done={fq(par['dw'])}/{fq(par['rw'])}/{fq(par['tw'])}, environment_terminates={par['envterm']}, normalize_targets={par['normtgt']}) terminated={case.arrays['term'].tolist()}"
+    if upd:
+        ctx = (f"[through the update routine: target_delay={par['td']} mini-batch(es), SGD lr={fq(par['lr'])}; returned (total, dyn, reward, done, rmse) = "
+               f"{[float(out[x]) for x in ('loss', 'dyn', 'rew', 'done', 'rmse')]}] " + ctx)
     if not close_abs(out["dyn"], alt["dyn"], tol_c(alt["dyn"])):
         ok = False
         rep.violation(f"{fname}:dynamics_loss", f"dynamics loss {float(out['dyn'])!r} != {fq(alt['dyn'])} {ctx}", rinfo)
@@ -943,7 +1190,8 @@ def check_enc(case: Case, out, grads, rep, stats, rinfo):
         rep.violation(key, f"reward-MSE metric {float(out['rmse'])!r} != documented masked MSE {fq(alt['rmse'])}" + (f" but equals mean(se)*mean(mask) = {fq(alt['rmse_bc'])}" if bc else "") + f" {ctx}", rinfo)
     # reward cross-entropy with uniform logits: cr * ln(#bins), all terms non-negative.  Counted roundings (any batch size):
     # libm log <= 2 ulp (4 U), log_softmax subtraction 1, two-hot weight: x - lower 1, division 1, 1 - w 1, two products 2,
-    # sum over the bins 3, mean K_MEAN, sum over the horizon <= 2, float32 rounding of the expected value 1  -> 18; K_REW = 24
+    # sum over the bins 3, mean K_MEAN, sum over the horizon <= 2, float32 rounding of the expected value 1  -> 18; the update
+    # routine's mean over <= 2 mini-batches adds 2  -> 20; K_REW = 24
     K_REW = 24
     cr = fl(alt["cr"])
     lnk = math.log(len(BINS))
@@ -962,11 +1210,14 @@ def check_enc(case: Case, out, grads, rep, stats, rinfo):
         exp_bc = fl(alt["exact_bc"]) + rw * cr * lnk
         bc = abs(tot - exp_bc) <= tol_tot + (2 * K_MEAN + 3) * U * abs(fl(alt["exact_bc"])) and done_bc
         key = f"{fname}:done_loss_broadcast" if bc else f"{fname}:total_loss"
-        rep.violation(key, f"total loss {tot!r} != {exp_tot!r} {ctx}", rinfo)
+        doc = f" = documented {fq(par['dw'])}*L_dyn + {fq(par['rw'])}*L_reward + {fq(par['tw'])}*L_done" if upd else ""
+        rep.violation(key, f"total loss {tot!r} != {exp_tot!r}{doc} {ctx}", rinfo)
     for ref, idx, text in compare_grads(case, grads):
         ok = False
         g = group_of(case, ref, idx)
-        key = f"{fname}:grad:{g}"
+        key = f"{fname}:{gword}:{g}"
+        if upd:
+            text = "SGD step (old - new parameter) is not lr * gradient of the documented weighted sum: " + text.replace("d loss/d ", "step of ") + " [model.kernel columns: 0 done flag, 1-2 latent state, 3.. reward logits]"
         if ref == (0, "model.kernel"):
             got = grads[ref]
             exp = case.exp_grad[ref]
@@ -984,7 +1235,8 @@ def check_enc(case: Case, out, grads, rep, stats, rinfo):
 
 
 def _short(par, kind):
-    keep = {"lap": ["gamma", "delta"], "sac": ["gamma", "alpha"], "td7": ["gamma", "delta", "lo", "hi"], "mrq": ["gamma", "rs", "trs"]}.get(kind, ["gamma"])
+    keep = {"lap": ["gamma", "delta"], "sac": ["gamma", "alpha"], "td7": ["gamma", "delta", "lo", "hi"], "mrq": ["gamma", "rs", "trs"],
+            "mrqupd": ["gamma", "rs", "trs", "lr"], "saleupd": ["lr"], "encupd": ["dw", "rw", "tw", "lr"]}.get(kind, ["gamma"])
     return {k: str(fq(par[k])) for k in keep}
 
 
@@ -1045,6 +1297,10 @@ def group_key(c: Case):
     extra = (c.aux.get("h"), c.aux.get("normtgt")) if k == "enc" else ()
     if k == "td7":
         extra = (fl(c.vec["par"]["gamma"]), fl(c.vec["par"]["delta"]))
+    if k in UPD_BASE:  # static arguments / optimiser of the routine: one jit specialisation per group
+        par = c.vec["par"]
+        extra = tuple((nm, par[nm] if isinstance(par[nm], (bool, int)) else fl(par[nm])) for nm in
+                      {"encupd": ("dw", "rw", "tw", "envterm", "normtgt", "lr", "td"), "saleupd": ("lr",), "mrqupd": ("gamma", "lr")}[k]) + (c.aux.get("h"), c.aux.get("table"))
     return (k, c.n, shape, extra)
 
 
@@ -1068,7 +1324,7 @@ def evaluate(rep, vectors, stats, variants_every=3, td7_cap=None):
         kind, n = gk[0], gk[1]
         fname = FNAME[kind]
         try:
-            res = run_td7_group(cases) if kind == "td7" else run_group(cases)
+            res = run_cases(kind, cases)
         except tlc.MachineryError:
             raise
         except Exception as e:  # raised by the code under test
@@ -1101,6 +1357,8 @@ def make_cases(vec, fill_seed, with_variants=True):
     base = realise(vec, rng)
     base.fill_seed = tuple(fill_seed)
     out = [base]
+    if vec["kind"] in UPD_BASE:  # the relational variants are run on the wrapped losses themselves
+        return out
     if with_variants and vec["kind"] != "td7":
         nz = noisy(base, rng)
         nz.fill_seed = tuple(fill_seed)
@@ -1122,7 +1380,7 @@ def make_cases(vec, fill_seed, with_variants=True):
 def nontrivial(vec):
     """A vector is non-trivial when some row has a non-zero TD error / prediction error."""
     a = vec["alts"][0]
-    if vec["kind"] == "enc":
+    if UPD_BASE.get(vec["kind"], vec["kind"]) == "enc":
         return fq(a["dyn"]) != 0 or fq(a["done"]) != 0
     return fq(a["loss"]) != 0
 
@@ -1192,6 +1450,44 @@ def binding_canary(rep, vectors, failed=frozenset()):
         want = ["done_loss"] if kind == "enc" else [":loss", ":grad:online@obs"]
         for w in want:
             if not any(w in k for k in keys):
+                raise tlc.MachineryError(f"binding canary: corrupted expectation ({kind}, {w}) not noticed; got {keys}")
+    # update routines: a corrupted returned component / loss and a corrupted SGD step must be noticed
+    upicks = {}
+    for v in vectors:
+        kind = v["kind"]
+        if kind not in ("encupd", "mrqupd") or kind in upicks or canon(v) in failed or len(v["alts"]) != 1:
+            continue
+        a = v["alts"][0]
+        if kind == "encupd" and not (v["par"]["envterm"] and fq(a["done"]) != 0 and any(fq(x) != 0 for r in seq(a["sd"]) for x in seq(r))):
+            continue
+        if kind == "mrqupd" and all(fq(x) == 0 for x in seq(a["s1"])):
+            continue
+        upicks[kind] = v
+    present = {v["kind"] for v in vectors if v["kind"] in ("encupd", "mrqupd")}
+    if present - set(upicks) and not failed:
+        raise tlc.MachineryError(f"binding canary: no suitable update-routine vectors ({sorted(upicks)} of {sorted(present)})")
+    for kind, v in upicks.items():
+        bad = json.loads(json.dumps(v))
+        bad2 = json.loads(json.dumps(v))
+        a, a2 = bad["alts"][0], bad2["alts"][0]
+        if kind == "encupd":
+            a["done"] = [a["done"][0] * 2 + 1, a["done"][1] * 2]
+            cells = [(i, t) for i, r in enumerate(seq(a2["sd"])) for t, x in enumerate(seq(r)) if fq(x) != 0]
+            i, t = cells[0]
+            x = seq(seq(a2["sd"])[i])[t]
+            seq(seq(a2["sd"])[i])[t] = [x[0] * 2 + 1, x[1] * 2]
+            want = ["update_model_based_encoder:done_loss", "update_model_based_encoder:step:encoder_model"]
+        else:
+            a["loss"] = [a["loss"][0] * 4 + 1, a["loss"][1] * 4]
+            g = seq(a2["s1"])
+            i = next(i for i, x in enumerate(g) if fq(x) != 0)
+            g[i] = [g[i][0] * 2 + 1, g[i][1] * 2]
+            want = ["update_critic_and_policy:loss", "update_critic_and_policy:step:online@obs"]
+        scratch = Report("C03", rep.tier, rep.seed)
+        evaluate(scratch, [bad, bad2], new_stats(), variants_every=10**9)
+        keys = [x["key"] for x in scratch.violations]
+        for w in want:  # prefix: a corrupted done expectation may be classified as done_loss_broadcast
+            if not any(k.startswith(w) for k in keys):
                 raise tlc.MachineryError(f"binding canary: corrupted expectation ({kind}, {w}) not noticed; got {keys}")
 
 
@@ -1316,7 +1612,7 @@ def replay(path, rep):
         groups.setdefault(group_key(c), []).append(c)
     for gk, cs in groups.items():
         try:
-            res = run_td7_group(cs) if gk[0] == "td7" else run_group(cs)
+            res = run_cases(gk[0], cs)
         except Exception as e:
             print("code under test raised:", type(e).__name__, str(e)[:300])
             if vec["n"] == 1:
